@@ -347,6 +347,11 @@ func c17Copy(c *Ctx, rel string) {
 			}
 		}
 		inner := len(edgesMatching(b, "bin<<>(ind<+1>(0), 8)")) == 1
+		// the same eight steps driven by a one-bit mask walking from bit 7 down to bit 0
+		const maskPhi = "phi(128, bin<>>>(cycle, 1))"
+		maskTop := plainEdges(edgesMatching(b, "bin<!=>(bin<&>(load(iaddr(p3, ind<+1>(0))), "+maskPhi+"), 0)"))
+		maskForm := !inner && len(edgesMatching(b, "bin<!=>("+maskPhi+", 0)")) == 1 && len(maskTop) > 0
+		inner = inner || maskForm
 		nRet := 0
 		for _, e := range ana.Exits(f) {
 			if e.Panic {
@@ -364,6 +369,9 @@ func c17Copy(c *Ctx, rel string) {
 		okBody := len(dbl) == 1 && len(add) == 1
 		if okBody {
 			top := plainEdges(edgesMatching(b, "bin<>=>($byte, 128)")) // canonical form of every top-bit test of a byte (b&0x80 == 0x80, b&0x80 != 0, b>>7 != 0, b > 127)
+			if maskForm {
+				top = maskTop
+			}
 			okBody = mustPass(f, add[0].Block(), top) && !mustPass(f, dbl[0].Block(), top) && ana.InstrDominates(dbl[0], add[0])
 			at := b.CallTermAt(add[0])
 			bd, m := ana.Match("call<*>(p0, p1, p2, $bz, _, _, _)", at)
@@ -397,7 +405,7 @@ func c17Copy(c *Ctx, rel string) {
 					}
 				}
 			}
-			okBody = okBody && shl
+			okBody = okBody && (shl || maskForm)
 		}
 		r.Check(okBody, K("C17.scalar-loop.double-and-add"), c.P.Pos(f.Pos()), "per bit: acc = 2·acc; if top bit of the current byte: acc = B + acc (B with identity-aware z); byte <<= 1; acc starts at the point at infinity (0,0,0)")
 	}
